@@ -223,6 +223,7 @@ int sim_violation_class(void) { return S.cls; }
 void sim_mark_nontrivial(void) { S.nontrivial = true; }
 uint64_t sim_now(void) { return S.now; }
 void sim_advance(uint64_t ticks) { S.now += ticks; }
+void sim_set_now(uint64_t now) { S.now = now; }
 int sim_self(void) { return S.cur; }
 int sim_ntasks(void) { return S.ntasks; }
 bool sim_task_done(int id) { return S.tasks[id].state == T_DONE; }
